@@ -29,6 +29,8 @@ Inductive outcome :=
 
 Inductive event :=
 | EBuild (id : nat) (toks : list nat) (o : outcome)
+| ERead (id : nat) (toks : list nat) (o : outcome)   (* SynthDesc._read_synthdef2: rebuilds the units of a
+                                                        definition inside a dummy SynthDef `id` *)
 | EOutside (tok : nat).
 
 Record ctx := mkCtx {
@@ -59,12 +61,23 @@ Definition add_to_synth (c : ctx) (tok : nat) : ctx :=
 (* what an observer sees of one event *)
 Inductive obs :=
 | OBuilt (id : nat) (o : outcome)
+| OReadDesc (id : nat) (o : outcome)
 | OBlocked (id : nat)                       (* the lock was held: the build never starts *)
 | OOutside (tok : nat) (belongs : option nat).   (* ugen._synthdef *)
 
-Definition step (c : ctx) (e : event) : ctx * obs :=
+(* `rfin` = SynthDesc._read_synthdef2 resets the context in a `finally:` clause (regenerated from the
+   source, gen/Gen_opcodes.desc_read_finally); otherwise it is modelled like SynthDef._build. *)
+Definition step (rfin : bool) (c : ctx) (e : event) : ctx * obs :=
   match e with
   | EOutside tok => (add_to_synth c tok, OOutside tok (cur c))
+  | ERead id toks o =>
+      if locked c then (c, OBlocked id)
+      else
+        let c1 := mkCtx (Some id) true (defs c) in
+        let c2 := fold_left add_to_synth toks c1 in
+        let cur' := if rfin then None
+                    else match o with Succeeds => None | RaisesException => None | RaisesBase => cur c2 end in
+        (mkCtx cur' false (defs c2), OReadDesc id o)
   | EBuild id toks o =>
       if locked c then (c, OBlocked id)
       else
@@ -78,13 +91,15 @@ Definition step (c : ctx) (e : event) : ctx * obs :=
         (mkCtx cur' false (defs c2), OBuilt id o)                      (* `with` releases the lock *)
   end.
 
-Fixpoint run (c : ctx) (evs : list event) : ctx * list obs :=
+Fixpoint run (rfin : bool) (c : ctx) (evs : list event) : ctx * list obs :=
   match evs with
   | [] => (c, [])
-  | e :: t => let '(c1, o) := step c e in let '(c2, os) := run c1 t in (c2, o :: os)
+  | e :: t => let '(c1, o) := step rfin c e in let '(c2, os) := run rfin c1 t in (c2, o :: os)
   end.
 
 Definition no_base (e : event) : bool :=
   match e with EBuild _ _ RaisesBase => false | _ => true end.
 Definition build_ids (evs : list event) : list nat :=
-  flat_map (fun e => match e with EBuild id _ _ => [id] | _ => [] end) evs.
+  flat_map (fun e => match e with EBuild id _ _ => [id] | ERead id _ _ => [id] | _ => [] end) evs.
+Definition ev_toks (e : event) : option (nat * list nat) :=
+  match e with EBuild id toks _ => Some (id, toks) | ERead id toks _ => Some (id, toks) | EOutside _ => None end.
